@@ -26,11 +26,15 @@ Across == {"up-across-low", "up-across-high", "down-across"}
 (* the split point / the initial point carries nf = 4 ABOVE the bottom matching scale (not the default  *)
 (* nf of its scale): the next leg runs down within nf = 4 to the matching scale before it crosses       *)
 Forced == {"forced-split", "forced-init"}
-Shapes == Inside \cup Across \cup Forced
+(* an initial point above the charm matching scale carrying nf = 3: the first leg runs down in scale    *)
+(* within nf = 3, crosses upwards in nf and ends BELOW its starting scale (judged at NLO, where the      *)
+(* matching is not the identity)                                                                        *)
+DownUp == {"forced-down-up"}
+Shapes == Inside \cup Across \cup Forced \cup DownUp
 (* quick: LO inside one patch, NLO across the matching scale (the matching is the identity at LO);  *)
 (* thorough: every shape at LO, NLO and NNLO                                                        *)
 Cells == IF Thorough THEN [order : 1..3, shape : Shapes]
-         ELSE [order : {1}, shape : Inside \cup Forced] \cup [order : {2}, shape : Across]
+         ELSE [order : {1}, shape : Inside \cup Forced] \cup [order : {2}, shape : Across \cup DownUp]
 TolDecade == 2      \* D(16 points) <= 1e-2; together with the shrink factor this is <= 1e-3 at >= 25 points
 FloorDecade == 9
 C06_Composes(decFine, ratio100) == decFine >= FloorDecade \/ (decFine >= TolDecade /\ ratio100 >= 100)
